@@ -261,8 +261,22 @@ def worker_world():
     return w
 
 
+def c_global_variables():
+    return Contract(SCAN, 'Scanner.global_variables', params={'batch_number': 'Int'}, requires=['self.batches["packet_length"] >= 1'], signals={},
+                    ensures=[('C11-an-edition-whose-times-are-not-all-recorded-yet-is-still-described', 'same(returned["batch_number"], batch_number)')])
+
+
+def gv_setup(I, scope):
+    times = {'initialization_time': I.fresh(INT, 'init_time'), 'simulation_time': I.fresh(parse_type('Map[Int,Int]'), 'simulation_times'),
+             'elapsed_time': I.fresh(parse_type('Map[Int,Int]'), 'elapsed_times')}      # any subset of the editions may have a recorded time (cut listing)
+    me = I.alloc('Scanner', {'countwarnings': I.fresh(INT, 'nw'), 'counterrors': I.fresh(INT, 'ne'), 'tasks': I.fresh(INT, 'tasks'), 'normalend': I.fresh(BOOL, 'normalend'),
+                             'batches': {'batches': I.fresh(parse_type('Opt[Int]'), 'required_batches'), 'packet_length': I.fresh(INT, 'packet_length')},
+                             'partial': I.fresh(BOOL, 'partial'), 'fname': I.fresh(STR, 'fname'), 'times': times})
+    scope.set('self', me)
+
+
 def units(tier):
-    return ['unterminated_line', 'no_lookahead', 'check_scan', 'scan', 'init', 'worker', 'native']
+    return ['unterminated_line', 'no_lookahead', 'check_scan', 'scan', 'init', 'worker', 'global_variables', 'native']
 
 
 def _replay_native(name, inp):
@@ -299,6 +313,10 @@ def run_unit(unit, tier, seed, known):
         w = parse_world()
         w.add(c_scan())
         return {'functions': [D(verify_function(w, c_init(), setup=parser_setup))]}
+    if unit == 'global_variables':
+        w = parse_world()
+        w.exc_parents['KeyError'] = 'LookupError'
+        return {'functions': [D(verify_function(w, c_global_variables(), setup=gv_setup))]}
     if unit == 'worker':
         return {'functions': [D(verify_function(worker_world(), c_worker(), setup=parser_setup))]}
     raise KeyError(unit)
